@@ -4,10 +4,13 @@
 (* Input (env VERIF_TRACES): JSON array of items                            *)
 (*   "load":   [id, kind, f (abstract file that was rendered to disk),      *)
 (*              sel (selected challenge name or ""), out = [ok, kind, core, *)
-(*              extra] (projection of the returned Track | error class)]    *)
+(*              extra, txt] (projection of the returned Track | error       *)
+(*              class), txt (texts written as operation parameters, UTF-8   *)
+(*              bytes; see IncludedTextVerbatim in TrackModel.tla)]         *)
 (*   "optype": [id, kind, hyph, back, member, admin] one row of the real    *)
 (*              operation-type registry                                     *)
-(* L1: Fidelity / ValidLoads / Rejection / TargetAsWritten on the recorded   *)
+(* L1: Fidelity / ValidLoads / Rejection / TargetAsWritten /                 *)
+(*     IncludedTextVerbatim on the recorded                                  *)
 (*     outcome (a failing Rejection names the violated rules and, for       *)
 (*     "mixing", which timing attributes were combined);                    *)
 (* L2: the recorded outcome equals Code(f) - the transcription of the       *)
@@ -38,10 +41,11 @@ Check(it) ==
             R == Resolve(F)
             V == ViolR(F, R)
             l1 == UNION {Detail(cl, V, R) : cl \in {cl \in Clauses : ~Holds(cl, V, R, o)}}
+                  \cup (IF IncludedTextVerbatim(V, R, it.txt, o) THEN {} ELSE {"IncludedTextVerbatim"})
             c == CodeR(F, R, it.sel)
             l2 == /\ o.ok = c.ok
                   /\ o.kind = c.kind
-                  /\ o.ok => (o.core = c.core /\ o.extra = c.extra)
+                  /\ o.ok => (o.core = c.core /\ o.extra = c.extra /\ SeqElems(o.txt) = ExpText(R, it.txt))
         IN /\ IF l1 = {} THEN TRUE ELSE PrintT(<<"V", it.id, 1, "L1", l1>>)
            /\ IF l1 # {} \/ l2 THEN TRUE ELSE PrintT(<<"V", it.id, 1, "L2", {}>>)
     ELSE
